@@ -731,7 +731,7 @@ fn child_main(args: &Args) -> ! {
         for (syms, style) in corpus() {
             seeds.push(build_stream(&syms, |i| crate::c01::style_of(style, i)).bytes);
         }
-        if let Some(bytes) = vl_model::fuzz::campaign(&mut ctx, "c06_handle", 2_000_000, &seeds, 4096) {
+        if let Some(bytes) = vl_model::fuzz::campaign(&mut ctx, "c06_handle", 1_000_000, &seeds, 4096) {
             let (svc, _p) = t_service();
             let none = HashMap::new();
             match pt::guard(|| check_bytes(&svc, &none, &bytes, "handle").map(|_| ())) {
